@@ -295,8 +295,13 @@ def select(rng, quick, cap, b_d2, b_p, b_w, b_d3, b_s):
             picked_types.append(t)
             for k in ks:
                 need[k] = need.get(k, 0) + 1
+    # multi-element unordered containers (the known element-order deviation must be re-observed on every run)
+    for kind in ("uset", "umset", "umap", "ummap"):
+        two = [b for b in comp if calls(b)[0]["args"][0]["ty"]["k"] == kind and len(calls(b)[0]["args"][0]["val"]) == 2]
+        for b in (rng.sample(two, min(len(two), 1 if quick else 6))):
+            out.append(("depth2", b, 0, None))
     rest = [t for t in types if t not in set(picked_types)]
-    n_d2 = 62 if quick else 1000
+    n_d2 = 58 if quick else 1000
     picked_types += rest[:max(0, n_d2 - len(picked_types))]
 
     def weight(b):      # prefer the shapes with more elements
